@@ -49,4 +49,108 @@ def inXorFragment (inputs : List String) (defs : List (String × BExp)) (rets : 
      | [(r, e)] => !isSym e || r.startsWith "_ret"
      | _ => false)
 
+/-! ## The general class (`QV.C02.C02_general_partial`; proofs in `QV/Proofs/CompilerGen*.lean`)
+
+Definition lists with shared sub-expressions (cache hits inside and across statements), names defined
+more than once (re-binding, also of an argument) and several return bits. -/
+
+mutual
+/-- expressions of the general class: symbols of `scope`, constants, `Not` / `And` / `Or` / `Xor` of any arity;
+no constant (or negated constant) directly under `Xor` (`compile_xor` would take the constant's qubit as its
+accumulator; `_symplify_exp` removes these before the real compiler sees them); no `Or` / `Xor` without
+arguments (sympy cannot build them; their ancilla is never the target of a gate, `uncompute` frees it but
+leaves it marked and cached) -/
+def wfExpG (scope : List String) : BExp → Bool
+  | .sym n => scope.contains n
+  | .tt => true
+  | .ff => true
+  | .not a => wfExpG scope a
+  | .and l => wfExpListG scope l
+  | .or l => wfExpListG scope l && !l.isEmpty
+  | .xor l => wfExpListG scope l && l.all (fun a => !xorArgBad a) && !l.isEmpty
+  | _ => false
+def wfExpListG (scope : List String) : List BExp → Bool
+  | [] => true
+  | a :: as => wfExpG scope a && wfExpListG scope as
+end
+
+mutual
+/-- the expression mentions a constant -/
+def hasConst : BExp → Bool
+  | .tt => true
+  | .ff => true
+  | .sym _ => false
+  | .not a => hasConst a
+  | .and l => hasConstList l
+  | .or l => hasConstList l
+  | .xor l => hasConstList l
+  | .ite c t e => hasConst c || hasConst t || hasConst e
+  | .imp a b => hasConst a || hasConst b
+def hasConstList : List BExp → Bool
+  | [] => false
+  | a :: as => hasConst a || hasConstList as
+end
+
+/-- `r = Not(r)`: `compile_not` negates the qubit of `r` in place (step 0 of `compile_not`) -/
+def selfNot (r : String) : BExp → Bool
+  | .not (.sym n) => n == r
+  | _ => false
+
+/-- definition lists of the general class: every left-hand side is not reserved (`TRUE`, `FALSE`, `anc_…`) –
+it may be an argument or an earlier left-hand side (re-binding) –, every right-hand side is `wfExpG` over the
+arguments and the earlier left-hand sides, and no definition is the in-place self-negation `r = Not(r)`
+(the qubit of `r` is flipped in place; every other name bound to the same qubit by an earlier alias
+`b = r` changes with it – the compiler is wrong there, see `docs/notes/C02_C03_C06.md`) -/
+def genDefs (scope : List String) : List (String × BExp) → Bool
+  | [] => true
+  | (r, e) :: rest => !reservedName r && wfExpG scope e && !selfNot r e && genDefs (scope ++ [r]) rest
+
+/-- the class of `QV.C02.C02_general_partial`: argument names distinct and not reserved, `genDefs`, every
+requested return name is an argument or a left-hand side -/
+def inGeneral (inputs : List String) (defs : List (String × BExp)) (rets : List String) : Bool :=
+  decide inputs.Nodup && inputs.all (fun n => !reservedName n) && genDefs inputs defs &&
+    rets.all (fun r => inputs.contains r || defs.any (fun p => p.1 == r))
+
+/-- what the driver reports as `in_general`: the general class or one of the older single-definition classes
+(which also admit the degenerate `Or` / `Xor` without arguments) -/
+def inGeneralClass (inputs : List String) (defs : List (String × BExp)) (rets : List String) : Bool :=
+  inGeneral inputs defs rets || inFragment inputs defs rets || inFragmentConst inputs defs rets
+
+/-! ## The general class for cleanliness (`QV.C03.C03_general_partial`, `QV.C06.C06_general_partial`) -/
+
+/-- the right-hand side of a return statement: without constants, or a bare constant (the only forms sympy leaves:
+`_symplify_exp` folds every constant inside an expression) -/
+def retExprOK (e : BExp) : Bool := !(hasConst e && !isLeaf e)
+
+/-- the return phase: every left-hand side is a requested return bit and a NEW name (not an argument, not defined
+before: a requested return name that is bound again later leaves its first qubit to `uncompute_all` after the
+ancillas were released – the compiler is wrong there, `docs/notes/C02_C03_C06.md`) -/
+def retDefs (rets : List String) (scope : List String) : List (String × BExp) → Bool
+  | [] => true
+  | (r, e) :: rest => rets.contains r && !scope.contains r && retExprOK e && retDefs rets (scope ++ [r]) rest
+
+/-- the intermediates (left-hand sides that are not requested return bits: with final uncomputation on their
+ancillas are kept for `uncompute_all`; they may be defined more than once, re-bind an argument, mention constants)
+come first, the return bits last -/
+def keptThenRet (rets : List String) (scope : List String) : List (String × BExp) → Bool
+  | [] => true
+  | (r, e) :: rest =>
+    if rets.contains r then retDefs rets scope ((r, e) :: rest) else keptThenRet rets (scope ++ [r]) rest
+
+/-- the class of `QV.C03.C03_general_partial`: the general class of C02 (sharing, cache hits inside and across
+statements, re-binding of intermediates and arguments, several return bits) with the intermediates first and every
+requested return bit defined once, last -/
+def inGeneralClean (inputs : List String) (defs : List (String × BExp)) (rets : List String) : Bool :=
+  inGeneral inputs defs rets && keptThenRet rets inputs defs
+
+/-- what the driver reports as `in_clean_general`: the class of `QV.C03.C03_general_partial` -/
+def inGeneralCleanClass (inputs : List String) (defs : List (String × BExp)) (rets : List String) : Bool :=
+  inGeneralClean inputs defs rets || inCleanFragment inputs defs rets
+
+/-- the static part of the class of `QV.C06.C06_general_partial`: `inGeneralClean` with exactly one requested
+return bit (the theorem also asks that the compiled circuit never uses the output qubit as a control,
+`retNeverControl`, which the driver evaluates on the model's gate list) -/
+def inGeneralXor (inputs : List String) (defs : List (String × BExp)) (rets : List String) : Bool :=
+  inGeneralClean inputs defs rets && rets.length == 1
+
 end QV.Compiler
